@@ -25,7 +25,7 @@ import (
 // that see an empty root)
 var regRoots = []string{"/", "/a", "/a/", "/a/b", "/a/{id}", "/a/{id}/x", "/a/{id}/y", "/b", "/{v}", "/ab", "/users/{id}/a", "/users/{id}/b", "/b/c/", ""}
 var regRels = []string{"", "/", "/x", "/{k}", "/x/y", "/{k}/z", "x", "{k}"}
-var regPlain = []string{"/h", "/static/", "/static/css/", "/h/deep/", "/a/plainfile", "/zz"}
+var regPlain = []string{"/h", "/static/", "/static/css/", "/h/deep/", "/a/plainfile", "/zz", "/"}
 
 type regService struct {
 	root   string
@@ -137,6 +137,15 @@ func genReg(r *Rng) Sx {
 			ops = append(ops, L(6, A(r.Pick([]string{"GET", "POST"})), A(inst(strings.TrimRight(root, "/")+r.Pick(regRels[:6])))))
 		default:
 			pat := r.Pick(regPlain)
+			if pat == "/" {
+				// a plain handler on "/" and a service the mux knows by "/" are two owners of one pattern (the premise of
+				// C11 excludes it: the later of the two is refused with a panic): "/" only where no root maps to "/"
+				for _, rt := range roots {
+					if rt == "/" || rt == "" || strings.HasPrefix(rt, "/{") {
+						pat = "/h"
+					}
+				}
+			}
 			if usedPlain[pat] && r.Pct(70) {
 				continue // (the other 30%: the pattern is taken, the mux refuses, the caller recovers and goes on)
 			}
